@@ -5,7 +5,7 @@
    ("ERR?": the exception was thrown from inside a value; the model does not follow the unwinding, the
     implementation may answer ERR <cat> or TERMINATE)
    and, for testing the statement of the theorems, the specification's own answer:
-     spec|aspec <kind> <pol> <hexdoc> <history>   ->  <tokens> END <clean 0|1> | <tokens> ERR <cat> | NODOC | BADDOC *)
+     spec|aspec <kind> <pol> <hexdoc> <history>   ->  <tokens> END <clean 0|1> | <tokens> ERR <cat> <clean 0|1> | NODOC | BADDOC *)
 
 let err_cat = function EParse -> "P" | EMismatch -> "M" | EOverflow -> "O" | EInvalidArg -> "IA" | EInternal -> "STD"
 let serr_cat = function SE e -> err_cat e | SERange -> "R"
@@ -177,7 +177,7 @@ let () =
           let show ((toks, e), clean) =
             match e with
             | None -> Printf.sprintf "%s END %d" (toks_text toks) (if clean then 1 else 0)
-            | Some e -> Printf.sprintf "%s ERR %s" (toks_text toks) (serr_cat e) in
+            | Some e -> Printf.sprintf "%s ERR %s %d" (toks_text toks) (serr_cat e) (if clean then 1 else 0) in
           let wrap ((toks, e), clean) = ((KOpen :: toks @ (if e = None then [KClose] else []), e), clean) in
           print_endline
             (match decode data with
@@ -188,8 +188,8 @@ let () =
                 | MMap kvs, "spec" -> let (h, _) = parse_obj items in show (wrap (spec_reqs narrow widen o kvs h))
                 | MArr vs, "aspec" ->
                   let (h, _) = parse_arr items in
-                  let (r, left) = spec_areqs narrow widen o vs h in
-                  show (wrap r)
+                  let (((toks, e), clean), left) = spec_areqs narrow widen o vs h in
+                  show (wrap ((toks, e), clean && (e <> None || left = [])))
                 | _ -> "NODOC"))
         end else print_endline "UNSUPPORTED"
       with Failure m -> Printf.printf "EXC %s\n" m
